@@ -5,8 +5,8 @@ from ..runner import run_check
 
 UN = ["then add:1", "uerr add:1", "udone 3", "md", "dao 4", "uns", "tag 9", "src", "era", "iv", "dfr", "alc"]
 # binary adaptors with the probe in the first or second position (the other child is trivial)
-BIN_A = ["lv {} (argv 0)", "le {} (just 1)", "ld {} (just 1)", "seq {} (just 1)", "fin {} (just 1)", "wa {} (just 1)", "sw {} (jdone)"]
-BIN_B = ["lv (just 1) {}", "le (jerr 2) {}", "ld (jdone) {}", "seq (just 1) {}", "fin (just 1) {}", "wa (just 1) {}", "sw (just 1) {}"]
+BIN_A = ["lv {} (argv 0)", "le {} (just 1)", "ld {} (just 1)", "seq {} (just 1)", "fin {} (just 1)", "wa {} (just 1)", "sw {} (jdone)", "any {} (jdone)"]
+BIN_B = ["lv (just 1) {}", "le (jerr 2) {}", "ld (jdone) {}", "seq (just 1) {}", "fin (just 1) {}", "wa (just 1) {}", "sw (just 1) {}", "any (jdone) {}"]
 
 
 def stacks(tier, seed):
@@ -35,8 +35,8 @@ def run(tier, seed, replay=None):
     parts = [EventPart("evt", report_crashes=False, extra_cases=stacks, n_quick=1500)]
     return run_check(
         "C12", tier, seed, ["UnifexModel.Props.C12"], parts,
-        rule="ENUMERATED: every one of 26 adaptor forms (12 unary, 7 binary with the probe as first child, 7 with the probe as second child) in every position of "
-             "stacks of depth 1..3 (quick: 26+676+17576 cases) above a probe leaf that records the answer to a user-defined query CPO and the stop state it observes through "
+        rule="ENUMERATED: every one of 28 adaptor forms (12 unary, 8 binary with the probe as first child, 8 with the probe as second child) in every position of "
+             "stacks of depth 1..3 (quick: 28+784+21952 cases) above a probe leaf that records the answer to a user-defined query CPO and the stop state it observes through "
              "its receiver; plus random expressions (see C05); every observation is compared with the Lean calculus",
         assumptions=["the user-defined query CPO stands for every receiver query forwarded by the generic tag_invoke(CPO, const R&) overload (get_scheduler, get_allocator, custom); "
                      "get_stop_token is covered by C04", "allocate()/spawn allocator use is not modelled here"],
